@@ -990,6 +990,7 @@ class list_t(object):
         else:
             if not issubclass(type(v), type(self.t)):
                 raise Exception("Attempting to append illegal element to object array")
+            self._sync_backing_arr()
             self.backing_arr.append(v)
             model.append(v.get_model())
             # Propagate randomization information
@@ -998,6 +999,13 @@ class list_t(object):
     def extend(self, v):
         for vi in v:
             self.append(vi)
+            
+    def _sync_backing_arr(self):
+        # Objects that randomization dropped from the list (the solved 
+        # size was smaller) are no longer elements
+        n = len(self.get_model().field_l)
+        if len(self.backing_arr) > n:
+            del self.backing_arr[n:]
         
     def clear(self):
         self.get_model().clear()
@@ -1024,6 +1032,7 @@ class list_t(object):
                     if int(f.get_val()) == int(lhs):
                         return True
             else:
+                self._sync_backing_arr()
                 return lhs in self.backing_arr
             return False
 
@@ -1112,6 +1121,7 @@ class list_t(object):
                         
                 return ValueInt(v)
             else:
+                self._sync_backing_arr()
                 return self.backing_arr[k]
             
     def __setitem__(self, k, v):
@@ -1125,6 +1135,7 @@ class list_t(object):
         else:
             if not issubclass(type(v), type(self.t)):
                 raise Exception("Attempting to assign illegal element to object array")
+            self._sync_backing_arr()
             self.backing_arr[k] = v
             # The element's model takes the place of the previous one
             model = self.get_model()
